@@ -89,6 +89,8 @@ structure Env (S : Type) where
   encode : Nat → S → Option Bytes       -- `CharacterSet(cs).encode(s)`; `none`: the codec raises
   empty : S                             -- `""`
   validType : Nat → Bool                -- `ColumnType(n)` exists
+  fltText : Bytes → S                   -- `str(float)` of the value with this bit pattern
+  paramAt : Char → List Char → Bool     -- does `REGEX_PARAM` match at this character, given the text after it
 
 /-- `reader.read(k)` for a computed `k`: `OverflowError` when `k` does not fit a C `ssize_t` -/
 def readN (k : Nat) (r : Bytes) : Option (Bytes × Bytes) :=
@@ -142,5 +144,32 @@ def dictErase {κ ν : Type} [DecidableEq κ] (d : List (κ × ν)) (k : κ) : L
 
 /-- `bytes[i]`: IndexError past the end -/
 def byteAt (b : Bytes) (i : Nat) : Option Nat := (b[i]?).map UInt8.toNat
+
+/-! ### text (`str` as `List Char`) -/
+
+/-- `s.replace(c, r)` for a one-character pattern -/
+def strReplaceChar (s : List Char) (c : Char) (r : List Char) : List Char :=
+  s.flatMap (fun x => if x = c then r else [x])
+
+def natDigitsAux : Nat → Nat → List Char → List Char
+  | 0, _, acc => acc
+  | fuel + 1, n, acc =>
+    if n < 10 then Char.ofNat (48 + n) :: acc
+    else natDigitsAux fuel (n / 10) (Char.ofNat (48 + n % 10) :: acc)
+
+/-- `str(n)` for an `int` -/
+def intText (z : Int) : List Char :=
+  if z < 0 then '-' :: natDigitsAux (z.natAbs + 1) z.natAbs [] else natDigitsAux (z.natAbs + 1) z.natAbs []
+
+/-- `pattern.sub(lambda m: next(it), text)` for a pattern whose matches are single characters: every match, left to
+    right, is replaced by the next value; `none`: the values ran out (StopIteration). Returns the unused values too. -/
+def subIter (isMatch : Char → List Char → Bool) : List Char → List (List Char) → Option (List Char × List (List Char))
+  | [], vals => some ([], vals)
+  | c :: cs, vals =>
+    if isMatch c cs then
+      match vals with
+      | [] => none
+      | v :: vs => (subIter isMatch cs vs).map (fun r => (v ++ r.1, r.2))
+    else (subIter isMatch cs vals).map (fun r => (c :: r.1, r.2))
 
 end Mimic.Py
